@@ -34,7 +34,7 @@ partial def showExpr : Expr → String
   | .tuple es => sp ("tuple" :: es.map showExpr)
   | .struct fs => sp ("struct" :: fs.map fun (k, e) => sp [k, showExpr e])
   | .mutE _ e => sp ["mut", showExpr e]
-  | .fn .. => "(fn)"
+  | .fn ps r body => sp ("fn" :: sp (ps.map fun (x, t) => sp [x, t.render]) :: r.render :: body.map showExpr)
   | .modE body => sp ("mod" :: body.map showExpr)
   | .pre op e => sp ["pre", preOpName op, showExpr e]
   | .bin op a b => sp ["bin", binOpName op, showExpr a, showExpr b]
@@ -51,7 +51,7 @@ partial def showExpr : Expr → String
   | .reduce it init g => sp ["reduce", showExpr it, showExpr init, showExpr g]
   | .set x e => sp ["set", x, showExpr e]
   | .destruct xs e => sp ["destruct", sp xs, showExpr e]
-  | .fndecl .. => "(fndecl)"
+  | .fndecl x ps r body => sp ("fndecl" :: x :: sp (ps.map fun (x, t) => sp [x, t.render]) :: r.render :: body.map showExpr)
   | .block body => sp ("block" :: body.map showExpr)
   | .ifElse c t e => sp ["if", showExpr c, showExpr t, match e with | some e => showExpr e | none => "unit"]
   | .ifSet x ty e b els => sp ["ifset", x, ty.render, showExpr e, showExpr b,
